@@ -180,6 +180,11 @@ def check_rotated(sp, ret, n, d, xnew, tag=""):
     check(tag + "bounds are permuted by pi", list(ret.bounds) == [sp.bounds[pi[k]] for k in range(n)])
     check(tag + "same operand index at corresponding points", ev(ret, xnew) == ev(sp, xold))
     check(tag + "box maps onto box", in_box(xnew, ret.bounds) == in_box(xold, sp.bounds))
+    # frame clauses used by the modular scheduler proof (contracts/scheduler.py AbsSchedule.rotate)
+    for k in range(1, n - d + 1):
+        check(tag + f"frame: inner view {k} untouched", tolist(ret.pattern.A[:, n - k:]) == tolist(sp.pattern.A[:, n - k:]))
+    check(tag + "frame: bounds behind the rotated prefix untouched", list(ret.bounds[d:]) == list(sp.bounds[d:]))
+    check(tag + "frame: offset vector untouched", tolist(ret.pattern.b) == tolist(sp.pattern.b))
 
 
 @contract
@@ -214,6 +219,11 @@ def check_tiled(sp, ret, n, d, tb, xnew, y, tag=""):
     q, r = y // tb, y % tb
     check(tag + "inverse witness in range", implies(0 <= y and y < b, 0 <= q and q < b // tb and 0 <= r and r < tb))
     check(tag + "inverse witness maps back", q * tb + r == y)
+    # frame clauses used by the modular scheduler proof (contracts/scheduler.py AbsSchedule.tile_dim)
+    for k in range(1, n - d + 1):
+        check(tag + f"frame: inner view {k} untouched", tolist(ret.pattern.A[:, n + 1 - k:]) == tolist(sp.pattern.A[:, n - k:]))
+    check(tag + "frame: tiled pair multiplies back to the old bound", ret.bounds[d] * tb == b and ret.bounds[d + 1] == tb)
+    check(tag + "frame: offset vector untouched", tolist(ret.pattern.b) == tolist(sp.pattern.b))
     check(tag + "phi is injective on the tiled pair",
           implies(in_box(xnew, ret.bounds) and xnew[d] * tb + xnew[d + 1] == y, xnew[d] == q and xnew[d + 1] == r))
 
